@@ -56,6 +56,7 @@ class QFactor(QFactorInstantiatorNative, Instantiater):
         """Return true if the circuit can be instantiated."""
         return all(
             isinstance(gate, LocallyOptimizableUnitary)
+            or gate.num_params == 0
             for gate in circuit.gate_set
         )
 
@@ -75,6 +76,7 @@ class QFactor(QFactorInstantiatorNative, Instantiater):
             gate
             for gate in circuit.gate_set
             if not isinstance(gate, LocallyOptimizableUnitary)
+            and gate.num_params != 0
         }
 
         if len(invalid_gates) == 0:
